@@ -199,6 +199,9 @@ class Exec:
         """the operation raises `exc` unless cond; raises-never functions get an obligation"""
         if isinstance(cond, bool) and cond:
             return
+        if exc == "__assume__":  # a definitional fact about the value just computed
+            st.assume(cond)
+            return
         lab = label or f"{exc}@{_src(node)[:60] if node is not None else ''}"
         self.ctx.oblige(st, f"noraise:{exc}", lab, cond, node)
         st.assume(cond)
@@ -796,7 +799,9 @@ class Exec:
         if not any(str(f.get("__func__", "")).endswith("._calculate_reading") for f in st.frames):
             return
         if main in ser.own_keys and main not in ser.written_now and ser.write_index is not None:
-            goal = to_int_term(j) != to_int_term(ser.write_index)
+            # reading an own key at the index being computed before writing it is harmless only when
+            # nothing (None) is there: then no information from an earlier computation flows in
+            goal = z3.Or(to_int_term(j) != to_int_term(ser.write_index), V.is_vnone(ser.lookup_V(key, j)))
             self.ctx.oblige(st, "frame-read-own", f"{main!r} @ {_src(node)[:60] if node is not None else ''}", goal, node)
             st.assume(goal)
 
